@@ -134,8 +134,19 @@ func c05Untyped(r *rand.Rand) c05Prog {
 	}
 	for i, n := 0, 1+r.Intn(2); i < n; i++ {
 		q := mkRule()
-		q.Head.Name = "ans"
+		if r.Intn(2) == 0 {
+			q.Head.Name = "ans" // otherwise the head keeps a predicate of the program: answers may equal existing facts
+		}
 		prog.Queries = append(prog.Queries, q)
+	}
+	if len(prog.Facts) > 0 {
+		// the identity query over an existing predicate: every answer IS an existing fact
+		f := gen.Pick(r, prog.Facts)
+		p := ast.Pred{Name: f.Name, Terms: make([]ast.Term, len(f.Terms))}
+		for j := range p.Terms {
+			p.Terms[j] = ast.Var(fmt.Sprintf("id%d", j))
+		}
+		prog.Queries = append(prog.Queries, ast.Rule{Head: p, Body: []ast.Pred{p}})
 	}
 	return prog
 }
@@ -157,8 +168,18 @@ func c05Typed(r *rand.Rand) c05Prog {
 	}
 	for i, n := 0, 1+r.Intn(2); i < n; i++ {
 		q := u.Rule(r, o)
-		q.Head.Name = "ans"
+		if r.Intn(2) == 0 {
+			q.Head.Name = "ans"
+		}
 		prog.Queries = append(prog.Queries, q)
+	}
+	if len(prog.Facts) > 0 {
+		f := gen.Pick(r, prog.Facts)
+		p := ast.Pred{Name: f.Name, Terms: make([]ast.Term, len(f.Terms))}
+		for j := range p.Terms {
+			p.Terms[j] = ast.Var(fmt.Sprintf("id%d", j))
+		}
+		prog.Queries = append(prog.Queries, ast.Rule{Head: p, Body: []ast.Pred{p}})
 	}
 	return prog
 }
@@ -427,6 +448,14 @@ func c05Exhaustive(c *core.C, chunk int) {
 		for li, fl := range c05FactLists {
 			if !c.Thorough() && c.R.Intn(50) != 0 {
 				continue
+			}
+			// every other point uses a head over the program's own predicate, so that answers can
+			// coincide with facts that already exist
+			q.Head.Name = "ans"
+			if (bi+li)%2 == 1 && len(hv) == 1 {
+				q.Head.Name = "p"
+			} else if (bi+li)%2 == 1 && len(hv) == 2 {
+				q.Head.Name = "q"
 			}
 			c.Eval(1)
 			facts := ref.Facts{}
